@@ -7,10 +7,12 @@ use serde_json::{json, Value};
 use std::io::{BufRead, Write};
 
 mod builders;
+mod jsonref;
 mod laws;
 mod meta;
 mod ops;
 mod reg;
+mod v14;
 
 fn leak(s: &str) -> &'static str {
     Box::leak(s.to_owned().into_boxed_str())
